@@ -132,17 +132,17 @@ func TestVerifC08(t *testing.T) {
 			if impl[i] == "panic" && fail == "" {
 				fail, tag = fmt.Sprintf("op %d (%s) panics", i, op), "compact-panic"
 			}
-			if strings.Contains(impl[i], "segs=") && !strings.HasPrefix(op, "clean") {
+			if strings.Contains(impl[i], "segs=") && !strings.HasPrefix(op, "clean ") {
 				preSegs = vParseSegs(impl[i])
 				hw = vStateInt(impl[i], "hw")
 			}
-			if op == "read 0 u" && i+1 < len(prog) && strings.HasPrefix(prog[i+1], "clean") {
+			if op == "read 0 u" && i+1 < len(prog) && strings.HasPrefix(prog[i+1], "clean ") {
 				pre, _ = vParseRead(impl[i])
 				if strings.HasPrefix(impl[i], "err") {
 					pre = nil
 				}
 			}
-			if strings.HasPrefix(op, "clean") && i+1 < len(prog) && prog[i+1] == "read 0 u" {
+			if strings.HasPrefix(op, "clean ") && i+1 < len(prog) && prog[i+1] == "read 0 u" {
 				post, ok := vParseRead(impl[i+1])
 				if !ok && len(pre) > 0 && fail == "" {
 					fail, tag = fmt.Sprintf("op %d: read-back after clean failed: %s", i+1, impl[i+1]), "compact-read-failed"
@@ -245,6 +245,23 @@ func TestVerifC08(t *testing.T) {
 			if nhw > hw {
 				hw = nhw
 				prog = append(prog, fmt.Sprintf("sethw %d", hw))
+			}
+			if rnd.Intn(4) == 0 {
+				// compaction racing with the writer: appends and rolls right after the snapshot
+				g := 1 + rnd.Intn(3)
+				parts := make([]string, g)
+				for i := range parts {
+					b := 1 + rnd.Intn(2)
+					toks := make([]string, b)
+					for j := range toks {
+						toks[j] = fmt.Sprintf("%s/%02x/_/-1", keys[rnd.Intn(len(keys))], next&0xff)
+						next++
+					}
+					parts[i] = strings.Join(toks, " ")
+				}
+				ts += 100
+				res.Dist(fmt.Sprintf("cleanmid:groups=%d", g))
+				prog = append(prog, fmt.Sprintf("cleanmid 0 %d %d %s", epoch, ts, strings.Join(parts, " + ")), "read 0 u", "revread -1")
 			}
 			prog = append(prog, "read 0 u", "clean 0", "read 0 u")
 			for s := int64(0); s < next; s++ {
